@@ -241,10 +241,26 @@ func (e *Env) RunCheck(ctx context.Context, ev *CheckEv, ts *typesystem.TypeSyst
 		// 47 GB after six minutes, KF-28); a caller without a deadline gets one here, and a request that runs
 		// into it is recorded with its full input instead of taking the driver down.
 		rctx, rcancel := context.WithTimeout(ctx, V2RunawayLimit)
-		res, err = q.Execute(rctx, &commands.CheckCommandParams{StoreID: e.StoreID,
-			TupleKey:         tuple.NewCheckRequestTupleKey(ev.O.String(), ev.R, ev.U.String()),
-			ContextualTuples: CtxTuples(ev.Ctxt), Context: ev.Ctx.ToProto(), Consistency: consistency(ev.HC)})
-		ranAway := rctx.Err() == context.DeadlineExceeded && ctx.Err() == nil
+		done := make(chan struct{})
+		var res2 *commands.CheckResult
+		var err2 error
+		go func() {
+			defer close(done)
+			res2, err2 = q.Execute(rctx, &commands.CheckCommandParams{StoreID: e.StoreID,
+				TupleKey:         tuple.NewCheckRequestTupleKey(ev.O.String(), ev.R, ev.U.String()),
+				ContextualTuples: CtxTuples(ev.Ctxt), Context: ev.Ctx.ToProto(), Consistency: consistency(ev.HC)})
+		}()
+		ranAway := false
+		select {
+		case <-done:
+			res, err = res2, err2
+			ranAway = rctx.Err() == context.DeadlineExceeded && ctx.Err() == nil
+		case <-time.After(V2RunawayLimit + 5*time.Second):
+			// the call ignores its cancelled context as well (observed: seven minutes inside ResolveUnionEdges
+			// after the 20 s deadline): its goroutines cannot be stopped, the driver must wind up
+			ranAway = true
+			V2RanAway.Store(true)
+		}
 		rcancel()
 		if res != nil {
 			allowed = res.Allowed
